@@ -66,4 +66,34 @@ PROPS = {
         "level_note": "Precision/completeness full at operation granularity; racing Close protocol full at atomic-step granularity. Collection is in snapshot order, so a dead version behind an older open snapshot stays (the oracle allows that band; the correspondence pins it to the model). Physical unlinking under contention inherits C13/C14. MemoryInUse is compared only through node counts and the allocator ledger (C07).",
         "assumptions": ["at least one writer exists (collection workers are per writer)", "sync/atomic sequentially consistent", "skiplist operations on the store are atomic at this level (C13)"],
     },
+    "C16": {
+        "runs": [run("barrier", 2000, 30000)],
+        "level_text": "Theorem barrier_safe for ALL programs over Acquire/Release(any held token)/FlushSession by any number of goroutines and ALL schedules of the atomic steps (inductive invariant, 17 fields): the reclamation panic is unreachable; destructors run in flush order, each exactly once, with the object of their flush; while a token of a session is held neither that session's flush nor any later one has been destructed. Tied to skiplist/access_barrier.go by schedule replay: real goroutines park at ten yield points between the atomic operations; the model replays the same thread choices and must reach the same label and the same number of destructor calls after EVERY step, the same results, destructor log, queue, freeSeqno and activeSeqno.",
+        "level_note": "Full at atomic-step granularity under sequentially consistent atomics, for fewer than 2^30 operations in total (the proof shows the int32 offset trick needs holders + in-flight accessors < 2^30; beyond that the model — and the code — misbehave). The free queue (a skiplist) is treated as an atomic sorted set (C13).",
+        "assumptions": ["sync/atomic sequentially consistent; sync.Mutex mutual exclusion", "fewer than 2^30 barrier operations (simultaneous accessors)", "free-queue skiplist operations atomic (C13)"],
+    },
+    "C17": {
+        "runs": [run("barrier-live", 2000, 30000)],
+        "level_text": "Theorem barrier_live for ALL programs and ALL schedules: whenever no call is in progress and every token has been released, the free queue is empty and the destructor has run for every FlushSession so far. The invariant carries the responsibility clause 'a ready queue head implies the try-lock is held or some goroutine is between its queue insert / flag reset and its (re-)examination of the queue'. Regression witness for the original code (lost wake-up) proved by computation. Tie: same schedule replay as C16 with a generator that makes sessions terminate close together; oracle: at quiescence destructor calls = flushes and the queue is empty.",
+        "level_note": "Full at atomic-step granularity; same assumptions as C16. That an idle or closed Nitro instance therefore holds no unlinked-but-unfreed nodes additionally uses C07's ledger (checked with the guard allocator).",
+        "assumptions": ["as C16"],
+    },
+    "C18": {
+        "runs": [run("c18", 1200, 20000)],
+        "level_text": "Theorems: assemble_concat / assemble_stats (any number of segments incl. empty ones anywhere, arbitrary levels: every level chain of the assembled list is the concatenation restricted to nodes of that height, unmarked; statistics exact); merge_seek_first / merge_seek (for any number of ascending lists with overlapping/duplicate/empty contents, SeekFirst or Seek x called in ANY iterator state yields exactly the sorted multiset union (restricted to >= x); no nil dereference). Tied to builder.go / merger.go: generated segment layouts (sequential and concurrent fill, both memory modes) with the drawn levels read back, all level walks and statistics compared, then Insert/Delete/Lookup on the assembled list replayed on the step-machine model; merge scripts repositioning before/during/after scans compared observation by observation.",
+        "level_note": "Full. Concurrent fill touches disjoint nodes and shares only s.level (a running maximum); the binary heap is modelled as a bag with minimal-key extraction (ties between equal keys are not observable through Get).",
+        "assumptions": ["segment items are added in ascending order (builder contract)", "input lists of the merge iterator are quiescent during the scan"],
+    },
+    "C11": {
+        "runs": [run("disk-load", 700, 8000)],
+        "level_text": "Theorems over the backup-directory model, for every checksum function and every stored content: an intact backup loads exactly; every proper prefix of a shard file fails; a shard truncated at any offset or removed fails the load; unparsable/missing files.json, unparsable checksums.json or nitro.json, a checksum list of the wrong length are errors (never an empty database), a missing checksums.json gives the exact content; a manifest entry redirected to a shard with a different checksum is detected. Tied to LoadFromDisk by fault injection: a stored database (delta on/off) is damaged by single faults (every file removed, manifest bytes altered/truncated, shard bit flips and truncations, redirected entries, k = 1, conc, conc+1, all shards truncated at once); LoadFromDisk runs in child processes under a 20 s watchdog; ok(items)/error/panic/hang is compared with the model's load of the same damaged image.",
+        "level_note": "Full for the loader logic as modelled. Manifests enter the model as what encoding/json makes of them (parsed / unparsable / missing) — encoding/json, os and bufio are trusted. Detection of altered payload bytes rests on the XOR-of-CRC32 checksum: the model evaluates the real CRC on every injected fault, but 'every single-byte change alters CRC32' is not proved in Coq; item reordering inside a shard and paired flips are invisible to an XOR of CRCs (format limit). Termination is observed (watchdog), not proved.",
+        "assumptions": ["encoding/json, os, bufio behave as documented", "single-fault-per-file damage; checksum collisions excluded"],
+    },
+    "C12": {
+        "runs": [run("disk-store", 240, 3000)],
+        "level_text": "Theorem crash_safe: for every stored content and every crash stage of the (repaired) StoreToDisk effect order — shard files holding arbitrary prefixes before the data manifest exists, manifest half-written, written without/with half/with complete checksums — the directory fails to load or loads exactly. Tied to the code by (i) copying the directory at every file-system mutation boundary of a real StoreToDisk (yield points; DiskBlockSize 64..4096) plus torn-last-file variants, loading each image in a child and comparing with the model; (ii) re-running StoreToDisk in children under RLIMIT_FSIZE for every block multiple and random budgets: a nil result must leave a directory that restores exactly.",
+        "level_note": "Partial: the file system is modelled as per-file prefixes of the final content with the observed order of manifest writes — no reordering of writes across files by the kernel, no fsync semantics, no torn sectors inside a prefix. 'Every failing write is reported' is established by the budget runs (oracle), not by a theorem.",
+        "assumptions": ["a crash leaves each file as a prefix of what was written to it, files appear in program order", "RLIMIT_FSIZE failures stand in for a full disk"],
+    },
 }
